@@ -116,7 +116,7 @@ func checkC08(p *load.Program, r *kit.Report) {
 			}
 		}
 		for _, ret := range kit.Returns(ph) {
-			if reach.Has(ret) && kit.ReturnErrClass(ret) != kit.ErrNil {
+			if reach.Has(ret) && reach.ErrClass(ret) != kit.ErrNil {
 				ok, why = false, "already-known arm can return an error: "+retLabel(ret)
 			}
 		}
@@ -412,7 +412,7 @@ func checkDepthGuard(p *load.Program, r *kit.Report, ph *ssa.Function, g *phGuar
 		for _, ret := range kit.Returns(ph) {
 			if reach.Has(ret) {
 				idx := kit.ErrResultIndex(ph)
-				if errCause(kit.RetOperand(ret, idx)) != "ErrBeyondMaxBranchDepth" {
+				if errCauseVia(reach, ret, idx) != "ErrBeyondMaxBranchDepth" {
 					ok, why = false, "too-deep arm reaches "+retLabel(ret)
 				}
 			}
